@@ -3,6 +3,7 @@ package rules
 import (
 	"fmt"
 	"go/types"
+	"regexp"
 	"strings"
 
 	"golang.org/x/tools/go/ssa"
@@ -28,6 +29,7 @@ func runC12(p *engine.Prog, r *engine.Report) {
 	mParse := p.Method(pkgScrape, "Scraper", "ParseResponse")
 	fReader := p.Field(pkgScrape, "Scraper", "reader")
 	fWriterS := p.Field(pkgScrape, "Scraper", "writer")
+	fGz := p.Field(pkgScrape, "Scraper", "gZipReader")
 	newScraper := p.FuncObj(pkgScrape, "NewScraper")
 	if len(p.Problems) > 0 {
 		return
@@ -226,9 +228,6 @@ func runC12(p *engine.Prog, r *engine.Report) {
 			probs = append(probs, "the reader field is never set to the tee")
 		} else {
 			call := unwrapIface(wrapStore.Val).(*ssa.Call)
-			if _, ok := loadOfField(call.Call.Args[0], fReader); !ok {
-				probs = append(probs, "the tee wraps "+fi.T(call.Call.Args[0]).S+" instead of the scraper's (possibly gzip-decoding) reader")
-			}
 			// writers given to the tee are the scraper's writers
 			okW := false
 			for _, a := range call.Call.Args[1:] {
@@ -239,30 +238,133 @@ func runC12(p *engine.Prog, r *engine.Report) {
 			if !okW {
 				probs = append(probs, "the tee is not given the scraper's raw writers")
 			}
-			gz := false
 			for _, st := range stores {
-				if st == wrapStore {
-					continue
-				}
-				if blockReaches(wrapStore.Block(), st.Block()) && !engine.InstrDominates(st, wrapStore) {
+				if st != wrapStore && blockReaches(wrapStore.Block(), st.Block()) && !engine.InstrDominates(st, wrapStore) {
 					probs = append(probs, "the reader field is overwritten after the tee was installed (at "+p.Rel(st.Pos())+")")
 				}
-				if strings.Contains(fi.T(st.Val).S, "gZipReader") || strings.Contains(fi.T(st.Val).S, "GetGzipReader") {
-					gz = true
-					// under Content-Encoding gzip
-					okEnc := false
-					for _, g := range fi.Guards(st.Block()) {
-						if strings.Contains(g, `"gzip"`) && strings.Contains(g, "Content-Encoding") && !strings.HasPrefix(g, "¬") {
-							okEnc = true
+			}
+			// the condition "the response is gzip-encoded"
+			var gz *engine.Formula
+			for _, b := range rq.Blocks {
+				if len(b.Instrs) == 0 {
+					continue
+				}
+				iff, ok := b.Instrs[len(b.Instrs)-1].(*ssa.If)
+				if !ok {
+					continue
+				}
+				ct := fi.T(iff.Cond).S
+				if strings.Contains(ct, `"Content-Encoding")`) && strings.Contains(ct, `"gzip"`) && strings.Contains(ct, ".HTTPResponse") {
+					gz = fi.Cond(iff.Cond)
+				}
+			}
+			// where the bytes handed to the tee come from
+			type src struct {
+				rdLeaf
+				blocks []*ssa.BasicBlock // stores through the reader field: the storing blocks
+			}
+			var srcs []src
+			for _, lf := range readerSources(p, rq, call.Call.Args[0]) {
+				if _, ok := loadOfField(lf.v, fReader); ok && lf.fn == rq {
+					// old form: the field is used as the variable; its earlier stores are the sources
+					for _, st := range stores {
+						if st == wrapStore || !engine.InstrDominates(st, wrapStore) && !blockReaches(st.Block(), wrapStore.Block()) {
+							continue
+						}
+						for _, l2 := range readerSources(p, rq, st.Val) {
+							srcs = append(srcs, src{rdLeaf: l2, blocks: []*ssa.BasicBlock{st.Block()}})
 						}
 					}
-					if !okEnc {
+					continue
+				}
+				srcs = append(srcs, src{rdLeaf: lf})
+			}
+			bodyRe := regexp.MustCompile(`\.HTTPResponse(@[0-9a-f]+)?\.Body(@[0-9a-f]+)?$`)
+			isBody := func(fn *ssa.Function, v ssa.Value) bool {
+				return bodyRe.MatchString(p.Info(fn).T(v).S)
+			}
+			isGz := func(l rdLeaf) bool {
+				t := p.Info(l.fn).T(l.v).S
+				if strings.Contains(t, "GetGzipReader(") && strings.HasSuffix(t, ".0") {
+					return true
+				}
+				if _, ok := loadOfField(l.v, fGz); ok {
+					return true
+				}
+				return false
+			}
+			under := func(sr src, want *engine.Formula) bool {
+				if gz == nil {
+					return false
+				}
+				v := fi.View(want)
+				for _, e := range sr.edges {
+					if ok, _ := v.ImpliesEdge(e[0], e[1], want); ok {
+						return true
+					}
+				}
+				for _, b := range sr.blocks {
+					if ok, _ := v.Implies(b, want); ok {
+						return true
+					}
+				}
+				return false
+			}
+			nBody, nGz := 0, 0
+			for _, sr := range srcs {
+				switch {
+				case sr.kind == "load" && isBody(sr.fn, sr.v) && len(sr.via) == 0:
+					nBody++
+					if len(sr.blocks) > 0 {
+						// field form: the plain body is installed first and replaced when the content is gzip-encoded
+						over := false
+						for _, o := range srcs {
+							if isGz(o.rdLeaf) && len(o.blocks) > 0 && sr.blocks[0].Dominates(o.blocks[0]) && under(o, gz) {
+								over = true
+							}
+						}
+						if !over {
+							probs = append(probs, "the plain body reaches the tee also when the content is gzip-encoded")
+						}
+					} else if !under(sr, engine.Not(gz)) {
+						probs = append(probs, "the plain body reaches the tee also when the content is gzip-encoded")
+					}
+				case isGz(sr.rdLeaf) && len(sr.via) == 0:
+					nGz++
+					if !under(sr, gz) {
 						probs = append(probs, "the gzip reader is installed without testing Content-Encoding")
+					}
+				default:
+					what := p.Info(sr.fn).T(sr.v).S
+					if sr.note != "" {
+						what += ": " + sr.note
+					}
+					if len(sr.via) > 0 {
+						what += " (through " + strings.Join(sr.via, " → ") + ")"
+					}
+					probs = append(probs, "the tee reads "+what+", which is neither the response body nor the gzip reader over it")
+				}
+			}
+			// the gzip reader decodes the response body
+			for _, in := range allInstrs(rq) {
+				if c2, ok := in.(*ssa.Call); ok && strings.HasPrefix(fi.T(c2).S, "call github.com/VictoriaMetrics/VictoriaMetrics/lib/protoparser/common.GetGzipReader(") {
+					if !isBody(rq, unwrapIface(c2.Call.Args[0])) {
+						probs = append(probs, "the gzip reader decodes "+fi.T(c2.Call.Args[0]).S+" instead of the response body")
+					}
+				}
+				if st, ok := in.(*ssa.Store); ok {
+					if fa, ok := st.Addr.(*ssa.FieldAddr); ok && engine.FieldOf(fa) == fGz {
+						if t := fi.T(st.Val).S; !(strings.Contains(t, "GetGzipReader(") && strings.HasSuffix(t, ".0")) {
+							probs = append(probs, "the gzip reader field is set to "+t)
+						}
 					}
 				}
 			}
-			if !gz {
+			if nGz == 0 {
 				probs = append(probs, "no gzip-decoding reader is installed for gzip-encoded responses")
+			}
+			if nBody == 0 {
+				probs = append(probs, "the response body never reaches the tee")
 			}
 			// the tee is installed on every successful return
 			for _, ret := range returnsOf(rq) {
